@@ -150,6 +150,7 @@ fn c20_vote_qc_timeout() {
 #[kani::proof]
 #[kani::unwind(70)]
 #[kani::stub(std::fmt::format, stub_format)]
+#[kani::stub(std::str::from_utf8, stub_from_utf8)]
 fn c20_vote_roundtrip() {
     let v = Vote { hash: any_digest(), round: vwit::any_u64(), author: any_key(), signature: Signature::default() };
     let bytes = bincode::serialize(&v).unwrap();
@@ -161,4 +162,39 @@ fn c20_vote_roundtrip() {
 }
 pub fn stub_format(_args: std::fmt::Arguments<'_>) -> String {
     String::new()
+}
+/// base64 key text is ASCII by construction; its UTF-8 validation dominates symbolic execution (trusted-base item)
+pub fn stub_from_utf8(v: &[u8]) -> Result<&str, std::str::Utf8Error> {
+    Ok(unsafe { std::str::from_utf8_unchecked(v) })
+}
+
+/// wire/store round trip of a Block (1 payload digest, embedded QC with 1 vote, no TC) through the REAL bincode.
+#[kani::proof]
+#[kani::unwind(70)]
+#[kani::stub(std::fmt::format, stub_format)]
+#[kani::stub(std::str::from_utf8, stub_from_utf8)]
+fn c20_block_roundtrip() {
+    let mut b = any_block::<1>();
+    b.qc.votes.push((any_key(), Signature::default()));
+    let bytes = bincode::serialize(&b).unwrap();
+    let b2: Block = bincode::deserialize(&bytes).unwrap();
+    assert!(b2.author == b.author && b2.round == b.round && b2.qc.hash == b.qc.hash && b2.qc.round == b.qc.round, "C20 block changed by the round trip");
+    assert!(b2.payload.len() == 1 && b2.payload[0] == b.payload[0] && b2.qc.votes.len() == 1 && b2.qc.votes[0].0 == b.qc.votes[0].0 && b2.tc.is_none(), "C20 block changed by the round trip");
+    assert!(b2.digest() == b.digest(), "C20 block digest changed by the round trip");
+    vwit::cover!(b.round > 5);
+    std::mem::forget((b, b2, bytes));
+}
+/// wire round trip of a Timeout (genesis-shaped high QC) through the REAL bincode.
+#[kani::proof]
+#[kani::unwind(70)]
+#[kani::stub(std::fmt::format, stub_format)]
+#[kani::stub(std::str::from_utf8, stub_from_utf8)]
+fn c20_timeout_roundtrip() {
+    let t = Timeout { high_qc: QC { hash: any_digest(), round: vwit::any_u64(), votes: Vec::new() }, round: vwit::any_u64(), author: any_key(), signature: Signature::default() };
+    let bytes = bincode::serialize(&t).unwrap();
+    let t2: Timeout = bincode::deserialize(&bytes).unwrap();
+    assert!(t2.round == t.round && t2.author == t.author && t2.high_qc.round == t.high_qc.round && t2.high_qc.hash == t.high_qc.hash, "C20 timeout changed by the round trip");
+    assert!(t2.digest() == t.digest(), "C20 timeout digest changed by the round trip");
+    vwit::cover!(t.round > 5);
+    std::mem::forget((t, t2, bytes));
 }
